@@ -202,7 +202,7 @@ func (C17) Run(s any, c *core.Ctx) core.Outcome {
 					ld := sh.Make(life.RowSeed, life.NRows, gen.Profile(life.Profile))
 					pos := 0
 					for _, op := range life.Ops {
-						if op.Op == "write" {
+						if op.Op == "write" || op.Op == "sortedrg" {
 							if _, err := buf.Write(ld, pos, min(pos+op.N, ld.Len())); err != nil {
 								return nil, core.Violate("C17/buffer-write-error", "%v", err)
 							}
@@ -224,7 +224,7 @@ func (C17) Run(s any, c *core.Ctx) core.Outcome {
 			}
 			pos := 0
 			for _, op := range sc.Plan.Ops {
-				if op.Op == "write" {
+				if op.Op == "write" || op.Op == "sortedrg" {
 					if _, err := buf.Write(data, pos, min(pos+op.N, data.Len())); err != nil {
 						return nil, core.Violate("C17/buffer-write-error", "%v", err)
 					}
@@ -361,6 +361,12 @@ func (res *Written) runOpsNoClose(c *core.Ctx, ops []WOp) {
 			if _, err := res.W.WriteRowGroup(res.Shape.NewBuffer(gen.BUntyped)); err != nil {
 				res.FirstErr, res.ErrOp = err, "write-empty-row-group"
 			}
+		case "sortedrg":
+			hi := min(cursor+op.N, res.Data.Len())
+			if err := writeSortedRowGroup(res.W, res.Shape, res.Data, cursor, hi); err != nil {
+				res.FirstErr, res.ErrOp = err, "write-sorted-row-group"
+			}
+			cursor = hi
 		}
 	}
 }
